@@ -374,6 +374,17 @@ func (w *c10World) load(j *world.Jar) (s *sessions.SessionState, err error) {
 		}
 	}()
 	s, err = verifSessionStore(w.px.P).Load(w.request(j))
+	if err == nil && s != nil {
+		// A load hands out an object of its own: what a request does to it in memory (a refresh that
+		// changes tokens and creation time in place and then fails before it is saved) must not show
+		// in anybody else's load. The object just loaded is defaced and the same cookies are loaded
+		// once more; the second object is the one that is judged.
+		s.AccessToken, s.RefreshToken, s.IDToken, s.Email, s.User = "defaced-by-the-previous-load", "defaced", "defaced", "defaced@verif.invalid", "defaced"
+		s.Groups = append(s.Groups[:0:0], "defaced")
+		s.CreatedAtNow()
+		s.ExpiresOn = nil
+		s, err = verifSessionStore(w.px.P).Load(w.request(j))
+	}
 	if w.redis != nil {
 		w.calls = len(w.redis.Calls)
 	}
